@@ -67,6 +67,11 @@ def run(repo, chk):
     chk.rule('C03.T1', 'stdlib text: every j is goto or branch with exact inverse at its target')
     chk.rule('C03.T2', 'stdlib text: every halt-class line has a role; inverse labels not entered by fall-through')
     gf = GenFacts(repo, unroll=(0, 1, 2) if chk.tier == 'thorough' else (0, 1, 2))
+    if chk.__class__.__name__ == 'Check':
+        # the condition lowerings by their meaning: no truth assignment reaches a committed halt or an unrecognised jump form,
+        # the outcome sequences are entered exactly once (shared with C09.M2)
+        from .. import condsim
+        chk.count('condition_simulations', condsim.decide(repo, chk, 'C03.J7', 'C03.J1', GEN))
 
     # ---- generator side -------------------------------------------------
     site_forms = defaultdict(set)
@@ -157,6 +162,10 @@ def run(repo, chk):
         for n in ast.walk(fn):
             if isinstance(n, ast.Call) and src(n.func) == 'self.bool_expr_branch':
                 n_sites += 1
+                if fname == 'bool_expr_branch':
+                    # the recursive calls hand down sequences built from the received ones: what they amount to is decided by
+                    # simulating the whole lowering for every truth assignment (condsim, above)
+                    continue
                 for k, a in enumerate(n.args[1:3]):
                     chk.expect(splice_shape_ok(a), 'C03.J7', f'{fname}::bool_expr_branch arg{k+1} `{src(a)[:50]}`',
                                'instruction tuple passed as if_true/if_false must be built from (), goto(X), '
